@@ -993,6 +993,14 @@ func (in *lgInterp) call(ce *ast.CallExpr, env *lgEnv, fr *lgFrame) (*lgVal, err
 		if err != nil {
 			return nil, err
 		}
+		if (m == "IncRef" || m == "TryIncRef") && !in.lenient && len(ce.Args) == 0 {
+			// acquisition of a fidRef reference; weak: the fidRef was found in a path node's childRefs
+			if recv.kind == "ref" {
+				in.site(ce.Pos(), fmt.Sprintf("(KRef %s %s)", CoqString(m), lgBool(recv.ref.kind == "member")))
+			} else if recv.kind != "other" || !strings.HasSuffix(fr.recvType, "fidRef") {
+				in.site(ce.Pos(), fmt.Sprintf("(KRef %s false)", CoqString(m)))
+			}
+		}
 		if in.fileMethods[m] && !in.lenient {
 			if recv.kind == "file" {
 				n := recv.file.node()
